@@ -105,7 +105,7 @@ def run_round_u32(mode, sign, at):
 
 def worker(p):
     prog = H.get_program()
-    S.BITS_MODE[:] = ['uf', 128]
+    S.BITS_MODE[:] = ['ladder', 192]        # exact bit-length facts (the pinned code of this property never asks for bits() of a symbolic integer; rewrites might)
     k = p['kind']
     if k in ('wsr', 'round'):
         run = run_wsr(p['D'], p['k'], p['mode'], 'with_scale_round' if k == 'wsr' else 'round', p.get('Lmin', 1))
